@@ -96,6 +96,10 @@ def generate(run_seed, prop, tier="quick"):
             item = gen_mol.build_repeat_item(rng)
         else:
             item = gen_mol.build_curated_item(rng)
+        # the matching convention is part of the input: now and then the label-insensitive one
+        item["legacy"] = not (rng.random() < 0.2)
+        if not item["legacy"]:
+            item["composition"] = False     # labels no longer disambiguate: history oracles only
         items.append(item)
     # --- shared libraries -----------------------------------------------------
     libs = []
@@ -354,6 +358,7 @@ class _Run:
             item = self._item(client, op)
             blocks = item["perm_blocks"] if op.get("perm") else item["blocks"]
             laa = item["last_all_atom"]
+            legacy = item.get("legacy", True)
             st["item"] = item
             st["level"] = 0
             st["prev"] = None
@@ -362,19 +367,19 @@ class _Run:
             st["passed_lib"] = None
             ctor = op["ctor"]
             if ctor == "string":
-                st["res"] = MoleculeResolver.from_string(".".join([item["base"]] + list(blocks)), last_all_atom=laa)
+                st["res"] = MoleculeResolver.from_string(".".join([item["base"]] + list(blocks)), last_all_atom=laa, legacy=legacy)
             elif ctor == "graph":
                 base_graph = read_cgsmiles(item["base"])
-                st["res"] = MoleculeResolver.from_graph(".".join(blocks), base_graph, last_all_atom=laa)
+                st["res"] = MoleculeResolver.from_graph(".".join(blocks), base_graph, last_all_atom=laa, legacy=legacy)
             elif ctor == "dicts":
                 lib = self.libs.get(client.get("lib"))
                 if lib is None:
                     lib = MoleculeResolver.read_fragment_strings(list(blocks), last_all_atom=laa)
                     st["passed_lib"] = (lib, _lib_snapshot(lib))
-                st["res"] = MoleculeResolver.from_fragment_dicts(item["base"], lib, last_all_atom=laa)
+                st["res"] = MoleculeResolver.from_fragment_dicts(item["base"], lib, last_all_atom=laa, legacy=legacy)
             elif ctor == "own":
                 lib = st["own_lib"]
-                st["res"] = MoleculeResolver.from_fragment_dicts(item["base"], lib, last_all_atom=laa)
+                st["res"] = MoleculeResolver.from_fragment_dicts(item["base"], lib, last_all_atom=laa, legacy=legacy)
             else:
                 raise HarnessError("unknown ctor %r" % ctor)
             return None
@@ -396,11 +401,12 @@ class _Run:
             st["last"] = (coarse, fine)
             all_atom = item["last_all_atom"] and level == item["n_levels"]
             found = []
-            found += monitors.numbering(coarse, fine, all_atom, item.get("shared_atoms", False))
+            shared_here = item.get("shared_atoms", False) and "!" in item["blocks"][min(level, len(item["blocks"])) - 1]
+            found += monitors.numbering(coarse, fine, all_atom, shared_here)
             found += monitors.mapping(coarse, fine)
             if st["prev"] is not None and kind != "resolve_all":
                 found += monitors.chaining(st["prev"], coarse)
-            if all_atom and not item.get("shared_atoms"):
+            if all_atom and not shared_here:
                 from .valence import check_valence
                 explicit_h = "[H" in item["multi"] or "H;" in item["multi"] or "H]" in item["multi"]
                 found += [("C09.valence", d) for d in check_valence(fine, explicit_h=explicit_h, stats=self.stats)]
@@ -567,7 +573,7 @@ def item_reference(item):
     laa = item["last_all_atom"]
     try:
         with AbortInjector(0) as inj:
-            res = MoleculeResolver.from_string(item["multi"], last_all_atom=laa)
+            res = MoleculeResolver.from_string(item["multi"], last_all_atom=laa, legacy=item.get("legacy", True))
         out["lines"]["construct"] = inj.count
         fine = None
         total = 0
@@ -577,7 +583,7 @@ def item_reference(item):
             out["lines"]["resolve%d" % (level + 1)] = inj.count
             total += inj.count
             out["levels"].append([digest(coarse), digest(fine)])
-            if item["family"] == "decomp" and level < item["n_levels"] - 1:
+            if item["family"] == "decomp" and item.get("composition") and level < item["n_levels"] - 1:
                 want = item["levels"][level + 1]
                 names = sorted(fine.nodes[n].get("atomname") for n in fine.nodes)
                 if names != sorted(want["names"]):
@@ -793,6 +799,8 @@ def execute(scenario):
     stats["levels"] = max(item["n_levels"] for item in sc["items"])
     for item in sc["items"]:
         stats["levels:%d" % item["n_levels"]] = stats.get("levels:%d" % item["n_levels"], 0) + 1
+        if not item.get("legacy", True):
+            stats["items_label_insensitive_convention"] = stats.get("items_label_insensitive_convention", 0) + 1
         if item.get("composition"):
             stats["composition_items"] = stats.get("composition_items", 0) + 1
             stats["composition_atoms"] = stats.get("composition_atoms", 0) + len(item["mol"]["atoms"])
